@@ -94,7 +94,7 @@ def _quiet(st):
     return st["rs"] != "STARTED" and len(st["due"]) == 0 and st["mode"] == "none"
 
 
-def replay(ctx: Ctx, beh, conc, c, origin, model_factory=None):
+def replay(ctx: Ctx, beh, conc, c, origin, model_factory=None, observer=None, setup=None):
     """Replay one DEVS.tla behaviour on a real simulator.  Returns the recorded trace
     (also usable for C->S validation), or None if nothing was executed."""
     states = [st for _, _, st in beh]
@@ -102,6 +102,8 @@ def replay(ctx: Ctx, beh, conc, c, origin, model_factory=None):
     ctl = dd.SimCtl(conc, c["EndT"], c["WarmT"], c["Strategy"], prog=_prog(final["prog"]),
                     init_ops=_ops(final["initOps"]) if final["initOps"] and fn_to_seq(final["initOps"])[0]["k"] != "unset" else [],
                     model_factory=model_factory)
+    if setup:
+        setup(ctl)
     case = {"origin": origin, "conc": conc, "consts": c, "ops": [dict(s["op"]) for s in states[1:]],
             "prog": _prog(final["prog"]), "init_ops": ctl.init_ops}
 
@@ -201,6 +203,12 @@ def replay(ctx: Ctx, beh, conc, c, origin, model_factory=None):
                     bad("state|" + diffs[0].split()[0], f"after {a}({op.get('arg')}): " + "; ".join(diffs))
                     okay = False
                     break
+                if observer:
+                    for key, detail in observer(ctl, want, a):
+                        bad(key, f"after {a}({op.get('arg')}): {detail}")
+                        okay = False
+                    if not okay:
+                        break
                 i = q + 1
     finally:
         ctl.dispose()
@@ -286,8 +294,8 @@ def random_run(ctx: Ctx, rng, conc, end_t, warm_t, strategy, *, cmds, p_fault=0.
     return ctl
 
 
-def trace_cfg(end_t, warm_t, strategy):
-    c = dict(MaxId=100000, EndT=end_t, WarmT=warm_t, Prios=[], RelDelays=[], AbsTimes=[], BadKinds=[], MaxOps=0,
+def trace_cfg(end_t, warm_t, strategy, print_stats=False):
+    c = dict(PrintStats=print_stats, MaxId=100000, EndT=end_t, WarmT=warm_t, Prios=[], RelDelays=[], AbsTimes=[], BadKinds=[], MaxOps=0,
              Strategy=strategy, Bounds=[], MaxInits=100000, AllowFaults=True, StratOps=[], MaxCmds=100000, Cmds=ALL_CMDS)
     lines = ["SPECIFICATION TraceSpec", "CONSTANTS"]
     defs = []
@@ -299,15 +307,16 @@ def trace_cfg(end_t, warm_t, strategy):
     return {"TraceDEVS_gen.tla": mod, "TraceDEVS_gen.cfg": "\n".join(lines) + "\n"}
 
 
-def validate_groups(ctx: Ctx, groups, keyfn=None, label="TraceDEVS"):
+def validate_groups(ctx: Ctx, groups, keyfn=None, label="TraceDEVS", print_stats=False, on_output=None):
     """groups: dict (end_t, warm_t, strategy) -> list of (trace, meta)."""
     total = 0
     for (end_t, warm_t, strategy), items in groups.items():
         if not items:
             continue
         trs = [t for t, _ in items]
-        files = trace_cfg(end_t, warm_t, "pause" if strategy == "pause" else "continue")
-        rej, st = traces.validate("TraceDEVS_gen", "TraceDEVS_gen.cfg", trs, extra_files=files, timeout=2400, chunk=1500, deque=True)
+        files = trace_cfg(end_t, warm_t, "pause" if strategy == "pause" else "continue", print_stats)
+        rej, st = traces.validate("TraceDEVS_gen", "TraceDEVS_gen.cfg", trs, extra_files=files, timeout=2400, chunk=1500, deque=True,
+                                  on_output=(lambda out, base: on_output(out, base, items)) if on_output else None)
         ctx.states += st["distinct"]; ctx.transitions += st["generated"]
         ctx.tlc_runs.append({"model": f"{label} end={end_t} warm={warm_t} {strategy}", "traces": len(trs),
                              **{k: (round(v, 2) if isinstance(v, float) else v) for k, v in st.items()}})
